@@ -1303,8 +1303,10 @@ class Router(NetworkNode, discriminator="router"):
 
         More information in user guide and docstring for SimComponent._init_request_manager.
         """
+        _node_is_on = NetworkNode._NodeIsOnValidator(node=self)
+
         rm = super()._init_request_manager()
-        rm.add_request("acl", RequestType(func=self.acl._request_manager))
+        rm.add_request("acl", RequestType(func=self.acl._request_manager, validator=_node_is_on))
         return rm
 
     def ip_is_router_interface(self, ip_address: IPv4Address, enabled_only: bool = False) -> bool:
